@@ -94,6 +94,12 @@ def sig(run, vm):
         except AnalysisBroken as e:
             run.broken('SIG', inst, str(e), where)
             continue
+        if any(has_opaque(v) for v in got.values()) and any('spdist' in vshow(v) for v in got.values()):
+            # no opcode of the specification looks at how full the stack is: the bounds are the business of ENDOP and check_final_stack
+            run.violated('SIG', inst, where, 'handler %s: what it leaves on the stack depends on the distance of the stack pointer from the stack base (%s): the opcode specification '
+                         'has no such dependence -- a value silently dropped near the limit also keeps the overflow stop of ENDOP / check_final_stack from ever firing'
+                         % (h, {k: vshow(v)[:80] for k, v in got.items()}))
+            continue
         if any(has_opaque(v) for v in got.values()):
             run.broken('SIG', inst, 'handler %s: result depends on a value the normaliser cannot express: %s'
                        % (h, {k: vshow(v) for k, v in got.items()}), where)
